@@ -88,7 +88,7 @@ def main():
     ap.add_argument('--replay', default='')
     ap.add_argument('--replay-dir', default='')
     ap.add_argument('--cap', type=float, default=60.0)
-    ap.add_argument('--shrink-budget', type=int, default=250)
+    ap.add_argument('--shrink-budget', type=int, default=400)
     ap.add_argument('--samples', type=int, default=2)
     args = ap.parse_args()
     faulthandler.enable()
